@@ -54,3 +54,6 @@ pub fn v_min_usize(a: usize, b: usize) -> (r: usize) ensures r == (if a <= b { a
 
 pub assume_specification<T, E> [ Option::<Result<T, E>>::transpose ] (o: Option<Result<T, E>>) -> (r: Result<Option<T>, E>)
     ensures r == (match o { Some(Ok(x)) => Ok::<Option<T>, E>(Some(x)), Some(Err(e)) => Err::<Option<T>, E>(e), None => Ok::<Option<T>, E>(None) });
+
+pub assume_specification<T: Clone> [ <[T] as std::borrow::ToOwned>::to_owned ] (s: &[T]) -> (r: Vec<T>)
+    ensures r@ == s@;
